@@ -242,7 +242,7 @@ def random_closed(rng, c, r, kinds=(2, 3, 4)):
     return BezierPath.fromSegments(segs)
 
 
-SHAPES = ['rect', 'ellipse', 'circle', 'star', 'selfx', 'rect', 'ellipse', 'star', 'selfx', 'balloon', 'spiral2', 'lens', 'dshape', 'teardrop']
+SHAPES = ['rect', 'ellipse', 'circle', 'star', 'selfx', 'rect', 'ellipse', 'star', 'selfx', 'balloon', 'spiral2', 'lens', 'dshape', 'teardrop', 'scurve']
 
 
 def make_shape(rng, kind, c, size, integer=False):
@@ -273,6 +273,16 @@ def make_shape(rng, kind, c, size, integer=False):
                 CubicBezier(P(mx + eps, y1), P(mx + lobe, y1 + lobe), P(mx - lobe, y1 + lobe), P(mx - eps, y1)),
                 Line(P(mx - eps, y1), P(x0, y1)), Line(P(x0, y1), P(x0, y0))]
         return BezierPath.fromSegments(segs), max(w, h) / 2 + lobe
+    if kind == 'scurve':
+        # a contour one of whose edges is a point-symmetric S-curve: its two handles lie on opposite sides of the chord at equal distance
+        def Q(x, y): return P(c.x + x * size, c.y + y * size)
+        a_, b_ = Q(0.6, 0.35), Q(-0.6, 0.35); h = rng.uniform(0.25, 0.6); u = rng.uniform(0.15, 0.35)
+        segs = [CubicBezier(a_, Q(0.6 - 1.2 * u, 0.35 + h), Q(-0.6 + 1.2 * u, 0.35 - h), b_), Line(b_, Q(-0.6, -0.6)), Line(Q(-0.6, -0.6), Q(0.6, -0.6)), Line(Q(0.6, -0.6), a_)]
+        if rng.random() < 0.5:
+            ang = rng.uniform(0, 2 * math.pi); segs = [s_.rotated(c, ang) for s_ in segs]
+            for i_ in range(len(segs)): segs[i_].points[0] = segs[i_ - 1].points[-1].clone()
+        path = BezierPath.fromSegments(segs); path.closed = True
+        return path, size
     if kind in ('lens', 'dshape', 'teardrop'):
         # contours of ONE or TWO segments (possible only with curves): a lens of two arcs, a D of one curve and one line, a one-cubic teardrop
         def Q(x, y): return P(c.x + x * size, c.y + y * size)
